@@ -4,6 +4,20 @@ use aelys_common::error::{CompileError, CompileErrorKind};
 use aelys_syntax::Span;
 
 impl Compiler {
+    /// Index for a new global; the index space (and the .avbc format) is u16.
+    pub(crate) fn alloc_global_index(&mut self, name: &str) -> Result<u16> {
+        let idx = self.next_global_index;
+        self.next_global_index = idx.checked_add(1).ok_or_else(|| {
+            aelys_common::error::AelysError::from(CompileError::new(
+                CompileErrorKind::TooManyGlobals,
+                Span::dummy(),
+                self.source.clone(),
+            ))
+        })?;
+        self.global_indices.insert(name.to_string(), idx);
+        Ok(idx)
+    }
+
     pub fn alloc_register(&mut self) -> Result<u8> {
         for (i, used) in self.register_pool.iter_mut().enumerate() {
             if !*used {
